@@ -22,6 +22,11 @@ VERIF = os.path.dirname(os.path.dirname(os.path.abspath(__file__)))
 CONTRACTS = {}     # id -> Contract
 
 
+class TargetMissing(ShapeChanged):
+    """the function a contract is written for no longer exists under that name (renamed, moved or inlined private helper): the contract is skipped with a note - the contracts
+    of its callers, which execute whatever the code now does, still apply"""
+
+
 class HarnessError(BaseException):
     """bug in a contract harness (not in the code under contract): checker error, never a violation"""
 
@@ -103,7 +108,10 @@ class NativeCaller:
         self.touched = self._i.touched
 
     def call(self, relfile, qualname, *args, **kwargs):
-        f = self._i.resolve(relfile, qualname)
+        try:
+            f = self._i.resolve(relfile, qualname)
+        except (AttributeError, ImportError) as e:
+            raise TargetMissing(f"target {relfile}::{qualname} no longer exists ({type(e).__name__}: {e})")
         if isinstance(f, property):
             return f.fget(*args)
         node = self._i.node_of(f) if hasattr(f, "__code__") else None
@@ -480,7 +488,7 @@ def _run_task(c, cid, st, tier, timeout_ms, both, seed, t0):
                 except Infeasible:
                     pass
                 except Unsupported as e:
-                    if c.level == "P":
+                    if c.level == "P" or isinstance(e, TargetMissing):
                         # (P contracts: any construct outside the subset is a code shape the modular proof was not written for)
                         # modular proof not applicable to the code's current shape: skipped (note), the S / B contracts of the same function decide
                         ctx.obligations.append(Obligation(f"{cid}::modular-proof-applies", "skipped", "-", 0.0, f"{e}", None, "".join("T" if d else "F" for d in ctx.trace), "shape"))
@@ -539,7 +547,7 @@ def _run_task(c, cid, st, tier, timeout_ms, both, seed, t0):
             touched.update({(t["file"], t["qualname"]): t for t in r.pop("touched", [])})
             if r["failed"]:
                 native["failed"].append({"inputs": vals, "failed": r["failed"]})
-            if r.get("error") and c.level == "P" and ("Unsupported" in r["error"] or "ShapeChanged" in r["error"]):
+            if r.get("error") and ((c.level == "P" and ("Unsupported" in r["error"] or "ShapeChanged" in r["error"])) or "TargetMissing" in r["error"]):
                 obls.append(Obligation(f"{cid}::modular-proof-applies", "skipped", "-", 0.0, f"native twin: {r['error']}", None, "", "shape").to_json())
             elif r.get("error") and not r["error"].startswith("precondition not met"):
                 # a native run that did not finish (time limit, unsupported construct) decided nothing: say so instead of counting it as a pass
